@@ -36,6 +36,8 @@ class Vars:
         self.assumptions = []     # admissible(inputs)
         self.grid = []            # extra constraints used only when a *model* is requested (exact float inputs)
         self.names = []
+        self.terms = []           # (z3 term, lo, hi) of every declared numeric input (used by the fallback probe)
+        self.bools = []
 
     def assume(self, *conds):
         for c in conds:
@@ -47,12 +49,15 @@ class Vars:
         v = z3.Real(name)
         self.names.append(name)
         self.assumptions += [v >= lo, v <= hi]
+        self.terms.append((v, lo, hi))
         k = z3.Int(name + "!k")
         self.grid.append(v * GRID == z3.ToReal(k))
         if menu is not None:
             # only used when a concrete model is requested (keeps CEGAR over the geodesic finite)
             self.grid.append(z3.Or(*[v == rv(m) for m in menu]))
         n = z3.Bool(name + "!nan") if nan else FALSE
+        if nan:
+            self.bools.append(n)
         return SFloat(n, v)
 
     def floats(self, prefix, n, nan=False, **kw):
@@ -65,11 +70,15 @@ class Vars:
             self.assumptions.append(v >= lo)
         if hi is not None:
             self.assumptions.append(v <= hi)
+        if lo is not None and hi is not None:
+            self.terms.append((v, lo, hi))
         return SInt(v)
 
     def bool(self, name):
         self.names.append(name)
-        return SBool(z3.Bool(name))
+        b = z3.Bool(name)
+        self.bools.append(b)
+        return SBool(b)
 
     def time(self, name, nat=False):
         from . import calendar_model as cal
@@ -98,6 +107,7 @@ class Vars:
         ts = [self.time(f"{prefix}{i}") for i in range(n)]
         for a, b in zip(ts, ts[1:]):
             self.assumptions += [b.s - a.s >= min_step, b.s - a.s <= max_step]
+            self.terms.append((b.s - a.s, min_step, max_step))
         return ts
 
 
@@ -693,6 +703,11 @@ def run_job(job, seed=0, replay_dir=None):
         res["inconclusive"].append(f"exploration stopped: {e}")
     except Exception as e:
         res["inconclusive"].append(f"harness error: {e!r}\n{traceback.format_exc()[-1500:]}")
+    if (res["inconclusive"] or res["mismatches"]) and not res["violations"] and not job.expect_canary_sat:
+        try:
+            fallback_probe(job, S, V, ex, res, real_outcome, known, replay_dir)
+        except Exception as e:
+            res["inconclusive"].append(f"fallback probe failed: {e!r}")
     res["decisions"] = ex.n_decisions
     res["merges"] = ex.n_merges
     res["queries"] = ex.n_queries
@@ -706,6 +721,137 @@ def _pack(Sc):
     import base64
     import pickle
     return base64.b64encode(pickle.dumps(Sc)).decode()
+
+
+def _atoms(formulas, limit=400):
+    """comparison atoms (<, <=, >, >=, =) occurring in a list of z3 formulas"""
+    seen, out, stack = set(), [], list(formulas)
+    kinds = (z3.Z3_OP_LE, z3.Z3_OP_GE, z3.Z3_OP_LT, z3.Z3_OP_GT, z3.Z3_OP_EQ)
+    while stack and len(out) < limit:
+        t = stack.pop()
+        i = t.get_id()
+        if i in seen:
+            continue
+        seen.add(i)
+        if z3.is_app(t) and t.decl().kind() in kinds and t.num_args() == 2 and not z3.is_bool(t.arg(0)):
+            out.append(t)
+        stack.extend(t.children())
+    return out
+
+
+def fallback_probe(job, S, V, ex, res, real_outcome, known, replay_dir, budget=160):
+    """The code could not be executed symbolically (unsupported library call ...).  Rather than staying blind, run the REAL
+    code on solver-chosen inputs aimed at the oracle's own case boundaries and at the extremes of every input, and evaluate the
+    property on the real outcome.  A violation found this way is real (it is a replay); absence of one proves nothing and the job
+    stays inconclusive."""
+    cons = [*V.grid]
+    excl = [mk_not(p) for _, p in known]
+    targets = []
+    # oracle atoms, obtained by evaluating the property on a dummy outcome of the expected shape
+    try:
+        n = getattr(job, "n", None)
+        if n is None and hasattr(job, "a"):
+            n = getattr(job.a, "n", None)
+        if n is not None:
+            dummy = Outcome(flags=[z3.Int(f"dummy!f{i}") for i in range(n)], mask=[FALSE] * n, shape=(n,), dtype="uint8")
+            dummy.extra["other"] = Outcome(flags=[z3.Int(f"dummy!g{i}") for i in range(n)], mask=[FALSE] * n, shape=(n,), dtype="uint8")
+            dummy.extra["second"] = dummy.extra["other"]
+            dummy.extra["info"] = {"args_unchanged": TRUE, "globals_unchanged": True}
+            forms = [f for _, f in job.holds(S, dummy)]
+            for a in _atoms(forms):
+                if any(str(c).startswith("dummy!") for c in _consts(a)):
+                    continue
+                targets += [a, z3.Not(a)]
+                if a.decl().kind() != z3.Z3_OP_EQ:
+                    targets.append(a.arg(0) == a.arg(1))
+    except Exception:
+        pass
+    for term, lo, hi in V.terms:
+        targets += [term == lo, term == hi]
+    for b in V.bools:
+        targets += [b, z3.Not(b)]
+    targets = targets[:budget]
+    models = []
+    r, m = ex.model_of(*cons, *excl)
+    if r == z3.sat:
+        models.append(m)
+    for t in targets:
+        r, m = ex.model_of(*cons, *excl, t)
+        if r == z3.sat:
+            models.append(m)
+    seen = set()
+    found = 0
+    for m in models:
+        if not exact_on_grid(S, m):
+            continue
+        try:
+            Sc, rout = real_outcome(m)
+        except Exception:
+            continue
+        key = json.dumps(jsonable(Sc), sort_keys=True)
+        if key in seen:
+            continue
+        seen.add(key)
+        try:
+            robl = job.holds(S, rout)
+        except Exception:
+            continue
+        bad = [lab for lab, f in robl if not concrete_truth(m, f)]
+        res["fallback_probes"] = res.get("fallback_probes", 0) + 1
+        if bad:
+            res["violations"].append(_violation(job, bad[0], Sc, rout, rout, m, replay_dir, via="fallback probe of the real code"))
+            found += 1
+            if found >= 3:
+                break
+
+
+def concrete_truth(m, f):
+    """truth value of formula f under model m, with the uninterpreted geodesic replaced by geographiclib's value at the
+    concrete argument points (so that an arbitrary interpretation chosen by the solver never decides anything)"""
+    from .symgeo import GEOD
+    if isinstance(f, bool):
+        return f
+    cs = _consts(f) if m is not None else []
+    g = z3.substitute(f, *[(c, _ev(m, c)) for c in cs]) if cs else f
+    for _ in range(6):
+        g = z3.simplify(g)
+        apps, stack, seen = [], [g], set()
+        while stack:
+            x = stack.pop()
+            if x.get_id() in seen:
+                continue
+            seen.add(x.get_id())
+            if z3.is_app(x) and x.decl().eq(GEOD) and all(_is_numeral(a) for a in x.children()):
+                apps.append(x)
+            stack.extend(x.children())
+        if not apps:
+            break
+        subs = []
+        for a in apps:
+            rg = real_geod(*[float(_numval(c)) for c in a.children()])
+            subs.append((a, rv(rg if rg is not None else 0.0)))
+        g = z3.substitute(g, *subs)
+    g = z3.simplify(g)
+    if z3.is_true(g):
+        return True
+    if z3.is_false(g):
+        return False
+    if m is None:
+        return False
+    return z3.is_true(z3.simplify(_ev(m, g)))
+
+
+def _consts(t):
+    out, stack, seen = [], [t], set()
+    while stack:
+        x = stack.pop()
+        if x.get_id() in seen:
+            continue
+        seen.add(x.get_id())
+        if z3.is_const(x) and x.decl().kind() == z3.Z3_OP_UNINTERPRETED:
+            out.append(x)
+        stack.extend(x.children())
+    return out
 
 
 def _violation(job, label, Sc, rout, sout, model, replay_dir, via):
